@@ -19,6 +19,8 @@ class RGen:
     def __init__(self, rnd, krylov=False):
         self.r = rnd
         self.krylov = krylov  # only base nodes below Prod/Kron/BDiag, all of them PSD
+        self.wrap = True      # lazy Transpose / Adjoint wrappers around base nodes
+        self.wrap_p = 0.17
         self.wide = False     # wide data regime: payload scales 1e-8..1e8, dense nodes with graded spectra (cond 1e3..1e8)
 
     def val(self, cplx):
@@ -45,13 +47,21 @@ class RGen:
                 return dict(k="Dense", dt=self.dt(cplx), a=a, psd=False)
         return dict(k="Dense", dt=self.dt(cplx), a=[[[1.0 if i == j else 0.0, 0] for j in range(n)] for i in range(n)], psd=False)
 
-    def dense_psd(self, n, cplx):
+    def dense_psd(self, n, cplx, tiny=False):
         r = self.r
         G = np.array([[complex(r.randint(-2, 2), r.randint(-1, 1) if cplx else 0) for _ in range(n)] for _ in range(n)])
         B = G.conj().T @ G + np.eye(n)
         k = r.choice([0, 0, 1, 2, 3])
+        dt = self.dt(cplx)
+        if tiny:
+            # overall scale so small that the eigenvalues are near / below the dtype's unit roundoff (Gram matrices of data at scale 1e-3 .. 1e-9);
+            # Cholesky and LU are scale invariant, so this stays perfectly well conditioned
+            sc = 10.0 ** -(r.randint(4, 10) if dt in ("float32", "complex64") else r.randint(9, 18))
+            A = (B / 2 ** k * sc).astype(np.complex64 if dt in ("float32", "complex64") else np.complex128)
+            a = [[[float(A[i, j].real), float(A[i, j].imag)] for j in range(n)] for i in range(n)]
+            return dict(k="Dense", dt=dt, a=a, psd=True, tiny=sc)
         a = [[[B[i, j].real / 2 ** k, B[i, j].imag / 2 ** k] for j in range(n)] for i in range(n)]
-        return dict(k="Dense", dt=self.dt(cplx), a=a, psd=True)
+        return dict(k="Dense", dt=dt, a=a, psd=True)
 
     def generic(self, n, cplx):
         """an operator kind without a structural slogdet rule (Sum, Transpose, Adjoint, Sliced, Tridiagonal, Householder,
@@ -129,17 +139,17 @@ class RGen:
         a = [[[float(A[i, j].real), float(A[i, j].imag) if cplx else 0.0] for j in range(n)] for i in range(n)]
         return dict(k="Dense", dt=dt, a=a, psd=bool(psd), graded=float(cond))
 
-    def lazy_graded(self, n, cplx, cond, psd=True):
+    def lazy_graded(self, n, cplx, cond, psd=True, tiny=False):
         """the same regime through lazy operators that reach the base case: a Sum of two dense halves, or G^H G + jitter * I"""
         r = self.r
         if n >= 2 and psd and r.random() < 0.5:
             k = r.randint(1, n - 1)
             rs = np.random.RandomState(r.getrandbits(31))
             G = rs.standard_normal((k, n)) + (1j * rs.standard_normal((k, n)) if cplx else 0)
-            G = G / np.linalg.norm(G, 2) * 10.0 ** (r.randint(-2, 2) / 2)
+            G = G / np.linalg.norm(G, 2) * 10.0 ** ((r.randint(-2, 2) / 2) if not tiny else -r.randint(4, 9))
             jitter = float(np.linalg.norm(G, 2) ** 2 / cond)
             g = [[[float(G[i, j].real), float(G[i, j].imag) if cplx else 0.0] for j in range(n)] for i in range(k)]
-            return dict(k="Lazy", form="gram", dt="complex128" if cplx else "float64", g=g, jitter=jitter, psd=True, graded=float(cond))
+            return dict(k="Lazy", form="gram", dt="complex128" if cplx else "float64", g=g, jitter=jitter, psd=True, graded=float(cond), **(dict(tiny=True) if tiny else {}))
         base = self.dense_graded(n, cplx, cond, psd)
         A = np_arr(base["a"], "complex128")
         rs = np.random.RandomState(r.getrandbits(31))
@@ -150,6 +160,22 @@ class RGen:
         return dict(k="Lazy", form="sum", dt=base["dt"], parts=[rows(A / 2 + S), rows(A / 2 - S)], psd=bool(psd), graded=float(cond))
 
     def base(self, n, cplx):
+        """a node that reaches a base case; one in six is hidden behind a lazy Transpose / Adjoint wrapper (constructor or .T / .H)"""
+        r = self.r
+        if self.wrap and r.random() < self.wrap_p:
+            self.wrap = False
+            try:
+                if self.krylov or r.random() < 0.6:
+                    inner = self.base0(n, cplx)
+                else:
+                    inner = self.tree(1, n, cplx)   # a structured operator (Kronecker, BlockDiag, Product, Diagonal, ...) behind the wrapper
+            finally:
+                self.wrap = True
+            return dict(k="Wrap", w=r.choice(["H", "H", "T"]), via=r.choice(["ctor", "ctor", "attr"]), a=inner,
+                        psd=bool(inner.get("psd")) and inner["k"] in ("Dense", "Lazy"))
+        return self.base0(n, cplx)
+
+    def base0(self, n, cplx):
         r = self.r
         if isinstance(self.krylov, dict):   # graded stream: {"cond": .., "psd": .., "lazy": .., "f32": ..}
             g = self.krylov
@@ -160,6 +186,10 @@ class RGen:
             return self.dense_general(n, cplx) if r.random() < 0.6 else self.dense_psd(n, cplx)
         if self.krylov:
             return self.dense_psd(n, cplx)
+        if self.wide and r.random() < 0.45:
+            return self.dense_psd(n, cplx, tiny=True)
+        if self.wide and n >= 2 and r.random() < 0.15:
+            return self.lazy_graded(n, cplx, 10.0 ** r.uniform(1, 6), True, tiny=True)
         if self.wide and n >= 2 and r.random() < 0.6:
             f32 = r.random() < 0.15
             return self.dense_graded(n, cplx, 10.0 ** (r.uniform(1, 3.4) if f32 else r.uniform(3, 8)), psd=r.random() < 0.5, f32=f32)
@@ -252,6 +282,8 @@ def rsize(t):
         return T.shape(t["t"])[0]
     if k == "Lazy":
         return len(t["g"][0]) if t["form"] == "gram" else len(t["parts"][0])
+    if k == "Wrap":
+        return rsize(t["a"])
     if k == "Diag":
         return len(t["d"])
     if k in ("Ident", "Scal"):
@@ -269,16 +301,21 @@ def rsize(t):
 
 def rkinds(t, acc=None):
     acc = acc if acc is not None else []
-    acc.append(t["k"] + (":" + t["form"] if t["k"] == "Lazy" else "") + ("+psd" if t.get("psd") else "") + ("+graded" if t.get("graded") else ""))
+    acc.append(t["k"] + (":" + t["form"] if t["k"] == "Lazy" else "") + (":" + t["w"] + ":" + t["a"]["k"] if t["k"] == "Wrap" else "")
+               + ("+psd" if t.get("psd") else "") + ("+graded" if t.get("graded") else "") + ("+tiny" if t.get("tiny") else ""))
     if t["k"] == "Generic":
         acc.append("Generic:" + t["t"]["k"])
-    for x in t.get("ms", []):
+    for x in subs(t):
         rkinds(x, acc)
     return acc
 
 
+def subs(t):
+    return list(t.get("ms", [])) + ([t["a"]] if t["k"] == "Wrap" else [])
+
+
 def rdepth(t):
-    return 1 + max([rdepth(x) for x in t.get("ms", [])], default=0)
+    return 1 + max([rdepth(x) for x in subs(t)], default=0)
 
 
 def rdts(t, acc=None):
@@ -288,7 +325,7 @@ def rdts(t, acc=None):
     if t["k"] == "Generic":
         import opcases as O
         acc += O.leaf_dts(t["t"])
-    for x in t.get("ms", []):
+    for x in subs(t):
         rdts(x, acc)
     return acc
 
@@ -321,6 +358,13 @@ def build(t):
         else:
             A = ops.Dense(np_arr(t["parts"][0], t["dt"])) + ops.Dense(np_arr(t["parts"][1], t["dt"]))
         return cola.PSD(A) if t["psd"] else A
+    if k == "Wrap":
+        X = build(t["a"])
+        if t["via"] == "attr":
+            W = X.H if t["w"] == "H" else X.T
+        else:
+            W = ops.Adjoint(X) if t["w"] == "H" else ops.Transpose(X)
+        return cola.PSD(W) if t.get("psd") else W
     if k == "Tri":
         return ops.Triangular(np_arr(t["a"], t["dt"]), lower=t["lower"])
     if k == "Diag":
@@ -380,6 +424,9 @@ def dense(t):
             G = np_arr(t["g"], "complex128")
             return G.conj().T @ G + t["jitter"] * np.eye(G.shape[1], dtype=C)
         return np_arr(t["parts"][0], "complex128") + np_arr(t["parts"][1], "complex128")
+    if k == "Wrap":
+        X = dense(t["a"])
+        return X.conj().T if t["w"] == "H" else X.T
     if k == "Diag":
         return np.diag(np_vec(t["d"], "complex128"))
     if k == "Ident":
@@ -469,6 +516,9 @@ def exact_dense(t):
             return [[M[i][j] + (jit if i == j else Z) for j in range(len(M))] for i in range(len(M))]
         A, B = _gq_arr(np_arr(t["parts"][0], t["dt"])), _gq_arr(np_arr(t["parts"][1], t["dt"]))
         return [[A[i][j] + B[i][j] for j in range(len(A))] for i in range(len(A))]
+    if k == "Wrap":
+        X = exact_dense(t["a"])
+        return [[(X[j][i].conj() if t["w"] == "H" else X[j][i]) for j in range(len(X))] for i in range(len(X))]
     if k == "Diag":
         d = _gq_arr([np_vec(t["d"], t["dt"])])[0]
         return [[d[i] if i == j else Z for j in range(len(d))] for i in range(len(d))]
@@ -596,6 +646,13 @@ def unary_data(A, alg):
     projected matrices and numpy's log of the Ritz values.  The masking rule and the contraction are the MODEL (C07_Unary.v)."""
     from cola.linalg.decompositions.lanczos import lanczos
     from cola.linalg.decompositions.arnoldi import arnoldi
+    from cola import ops
+    adj = False
+    while type(A).__name__.split("[")[0] in ("Transpose", "Adjoint"):   # apply_unary(f, Transpose|Adjoint) recurses into the wrapped operator
+        adj ^= isinstance(A, ops.Adjoint)
+        A = A.A
+    if isinstance(A, (ops.Diagonal, ops.BlockDiag, ops.Identity, ops.ScalarMul)):
+        return dict(error="structural apply_unary rule behind the wrapper (not a Krylov matrix function)")
     xnp, n = A.xnp, A.shape[0]
     V = np.eye(n, dtype=A.dtype)
     kw = dict(alg["obj"].__dict__)
@@ -622,7 +679,7 @@ def unary_data(A, alg):
     near_tie = bool(np.any(np.abs(np.abs(w) - thr) <= 1e-6 * thr))
     nonfinite = bool(np.any(keep & ~np.isfinite(fw))) or not (np.all(np.isfinite(Q)) and np.all(np.isfinite(P)) and np.all(np.isfinite(c)) and np.all(np.isfinite(w)))
     fw = np.where(np.isfinite(fw), fw, 0)
-    return dict(Q=Q, P=P, w=w, fw=fw, c=c, eps=eps, near_tie=near_tie, nonfinite=nonfinite, masked=int((~keep).sum()),
+    return dict(adj=bool(adj), Q=Q, P=P, w=w, fw=fw, c=c, eps=eps, near_tie=near_tie, nonfinite=nonfinite, masked=int((~keep).sum()),
                 below_tol=int((keep & (np.abs(w) <= kw.get("tol", 0) * np.max(np.abs(w), axis=1, keepdims=True))).sum()))
 
 
@@ -633,7 +690,7 @@ def coq_ucase(u, t, tol):
     for i in range(u["Q"].shape[0]):
         cols.append(f"(mkucol {qrows(u['Q'][i])} {qrows(u['P'][i])} [{';'.join(qi_lit(v) for v in u['w'][i])}] "
                     f"[{';'.join(qi_lit(v) for v in u['fw'][i])}] [{';'.join(qi_lit(v) for v in u['c'][i])}])")
-    return f"(mkucase (qc ({e10.numerator}) {e10.denominator}) [{';'.join(cols)}] {qi_lit(t)} {qc_lit(tol)})"
+    return f"(mkucase (qc ({e10.numerator}) {e10.denominator}) {'true' if u['adj'] else 'false'} [{';'.join(cols)}] {qi_lit(t)} {qc_lit(tol)})"
 
 
 def on_branch_cut(D):
